@@ -140,6 +140,8 @@ def h_rel(shape, implicit_tz=None, time_as_period=False):
 
 def _off_us(tz):
     import re
+    if tz in ("UTC", "local"):
+        return 0
     m = re.fullmatch(r"([+-])(\d\d)(\d\d)", tz)
     return (1 if m.group(1) == "+" else -1) * (int(m.group(2)) * 3600 + int(m.group(3)) * 60) * 1000000
 
